@@ -44,7 +44,7 @@ ASSUMPTIONS = [
 ]
 REQUIRED = {"faults_fired": 300, "exception_faults": 100, "death_faults": 100, "midwrite_faults": 20,
             "states_verified": 300, "retries_ok": 300, "fs_events_recorded": 200, "double_faults": 10,
-            "inline_faults_fired": 40}
+            "inline_faults_fired": 40, "paced_inline_faults_fired": 2}
 UNIT_TIMEOUT = 1500
 
 ROWS = [(0, 500, 1), (800, 1200, 2), (3000, 3500, 3), (3600, 4000, 4), (6000, 6400, 5), (9000, 9300, 6)]
@@ -279,16 +279,18 @@ MP_CUTS = (0, 2000, 5000, 10000)
 MP_TYPES = ("mpsrc", "mprow", "mpma", "mpmb", "mptop")
 
 
-def mp_context(d, fault=None, **kw):
+def mp_context(d, fault=None, pace=None, **kw):
     from vf.harness import mp_plugins as mp
 
     cfg = dict(mp_rows=MP_ROWS, mp_cuts=MP_CUTS)
     if fault is not None:
         cfg["mp_fault"] = fault
+    if pace is not None:
+        cfg["mp_pace"] = pace
     return strax.Context(storage=[strax.DataDirectory(d)], register=mp.ALL_INLINE, config=cfg, **kw)
 
 
-def mp_make(d, fault=None):
+def mp_make(d, fault=None, pace=None):
     """plugins with parallel='process' + their savers are inlined into a ParallelSourcePlugin and run in a
     process pool (savers 'forked': chunk files are written by the worker processes, metadata by the parent)"""
     import multiprocessing as _mp
@@ -297,7 +299,7 @@ def mp_make(d, fault=None):
         _mp.set_start_method("forkserver", force=True)
         # the fork server imports strax once; pool workers forked from it start in milliseconds
         _mp.set_forkserver_preload(["strax", "vf.harness.mp_plugins"])
-    st = mp_context(d, fault, allow_multiprocess=True, allow_lazy=False, max_messages=10, timeout=60,
+    st = mp_context(d, fault, pace, allow_multiprocess=True, allow_lazy=False, max_messages=10, timeout=60,
                     processors=["threaded_mailbox"])
     with common.quiet():
         st.make("0", "mptop", progress_bar=False, max_workers=2)
@@ -353,10 +355,12 @@ def run_inline_fault(fault):
         if fault["where"] == "child":
             spec = {"dtype": fault["dtype"], "chunk": fault["chunk"], "op": fault["op"], "mode": fault["mode"], "marker": marker}
             try:
-                mp_make(d, spec)
+                mp_make(d, spec, fault.get("pace"))
             except BaseException as e:  # noqa: BLE001
                 exc = e
             fired = os.path.exists(marker)
+            if fired and fault.get("pace"):
+                cnt["paced_inline_faults_fired"] = 1
         else:
             fsaudit.arm(d, fault_at=fault["k"], fault_kind="raise")
             try:
@@ -414,6 +418,12 @@ def inline_faults(tier, shard, nshards):
                     if q and (chunk == 1 or (chunk == 2 and mode == "exit")):
                         continue
                     out.append({"where": "child", "dtype": dtype, "chunk": chunk, "op": op, "mode": mode})
+    # paced runs (F31): the first chunk is slow to compute, the middle chunk's write fails at once, the last chunk
+    # becomes available late - the failed task has finished before the source submits its last task and ends
+    pace = {"slow_chunk": 0, "slow_by": 1.5, "late_chunk": 2, "late_by": 0.7}
+    for dtype in (("mptop", "mpsrc") if q else MP_TYPES):
+        for op in (("open:w", "meta") if q else ("open:w", "os.rename", "meta")):
+            out.append({"where": "child", "dtype": dtype, "chunk": 1, "op": op, "mode": "raise", "pace": dict(pace)})
     return [f for i, f in enumerate(out) if i % nshards == shard]
 
 
